@@ -265,6 +265,13 @@ pub enum Build {
     /// BytesText::new(s) (made owned first if `owned`), then inplace_trim_start() /
     /// inplace_trim_end() as flagged, then written
     TextTrim { s: String, start: bool, end: bool, owned: bool },
+    /// an End made from a start tag: BytesStart::new(name) (+ one attribute if `attrs`) .to_end()
+    EndOf { name: String, attrs: bool },
+    /// a Text made another way than BytesText::new: mode 0/1/2 = BytesText::from_escaped of
+    /// escape::escape / partial_escape / minimal_escape (s), 3 = BytesText::new(s).borrow(),
+    /// 4 = BytesText::new(s).into_owned(), 5/6/7 = BytesCData::new(s).escape() /
+    /// .partial_escape() / .minimal_escape()
+    TextVia { s: String, mode: u8 },
     /// BytesCData::escaped(s): as many CData events as the iterator yields
     CDataEscaped(String),
     /// BytesCData::new(s), s without "]]>"
